@@ -1221,10 +1221,11 @@ impl Channel {
                 counterparty_htlc_sigs.to_vec(),
             );
             self.enforcement_state.next_holder_commit_info = Some((info2, counterparty_signatures));
+            trace_enforcement_state!(self);
+            self.persist()?;
         }
-
-        trace_enforcement_state!(self);
-        self.persist()?;
+        // otherwise (a retry for the current commitment, or the lookahead LDK does) nothing changed
+        // and there is nothing to persist
 
         Ok(())
     }
@@ -2522,10 +2523,11 @@ impl Channel {
                 counterparty_htlc_sigs.to_vec(),
             );
             self.enforcement_state.next_holder_commit_info = Some((info2, counterparty_signatures));
+            trace_enforcement_state!(self);
+            self.persist()?;
         }
-
-        trace_enforcement_state!(self);
-        self.persist()?;
+        // otherwise (a retry for the current commitment, or the lookahead LDK does) nothing changed
+        // and there is nothing to persist
 
         Ok(())
     }
